@@ -59,6 +59,7 @@ func C04(r *core.Run) {
 	nameAffinity(r, convRel, "fields.go")
 	nameAffinity(r, schemaRel, "schema_from_proto.go")
 	sourceCoverage(r)
+	attributeIndependence(r, "sym_sites", "buildField", "buildProperty")
 }
 
 // slotAgreement (R-SYM/S3): per integer/float format, the list-rule and
